@@ -36,7 +36,7 @@ class C04Oracle(Oracle):
 
     def __init__(self, world, sess, res):
         super().__init__(world, sess, res)
-        self.ledger = Ledger(world["labware"])
+        self.ledger = Ledger(world["labware"], exact_grid=world["regime"] == "quarter")
         self.prev_hex = [sess.volumes_hex(i) for i in range(len(sess.labs))]
         self.band = Fraction(1, 10 ** 6)
 
